@@ -20,6 +20,10 @@ type peers map[store.NodeID]time.Time
 // Open returns a store.Store implementation using Badger as the storage
 // driver. The store should be (*badgerStore).Close()'d after use.
 func Open(opts badger.Options) (*badgerStore, error) {
+	// A process killed while it was appending to the value log leaves a
+	// partial entry behind. That entry was never acknowledged, so drop it
+	// rather than refuse to open the database after a crash.
+	opts = opts.WithTruncate(true)
 	db, err := badger.Open(opts)
 	if err != nil {
 		return nil, err
